@@ -193,7 +193,7 @@ func (f *Frame) execInstr(b *ssa.BasicBlock, in ssa.Instruction, o *blockOut) bo
 		if esz < 1 {
 			esz = 1
 		}
-		f.safety("makeslice", x, And(Le(IntLit(0), ln.T), Le(ln.T, cp.T), Le(Mul(cp.T, IntLit(esz)), BigLit("140737488355328"))), g, "make([]T, len, cap): 0 <= len <= cap and cap*sizeof(T) <= 2^47 (runtime panics otherwise)")
+		f.safety("makeslice", x, And(Le(IntLit(0), ln.T), Le(ln.T, cp.T), Le(Mul(cp.T, IntLit(esz)), BigLit("281474976710656"))), g, "make([]T, len, cap): 0 <= len <= cap and cap*sizeof(T) <= 2^48 = maxAlloc (runtime panics otherwise)")
 		arr := vc.newRef("mkslice")
 		vc.markAlloc(st, arr, nil)
 		vc.zeroElems(st, arr, et)
@@ -677,9 +677,22 @@ func (f *Frame) unop(x *ssa.UnOp, st *State, g Term) Val {
 		r := vc.load(st, v, t)
 		r.Typ = t
 		vc.assumeWF(r)
+		if gl, ok := x.X.(*ssa.Global); ok && r.K == KIface && gl.Pkg != nil && wellKnownErrorsNew[gl.Pkg.Pkg.Path()+"."+gl.Name()] {
+			// standard-library sentinel created by errors.New in its package initialiser (bodies of
+			// library initialisers are not loaded, so these are listed by name)
+			vc.assume(Not(vc.isNil(r)), "library variable "+gl.Name()+" is a non-nil errors.New value")
+			if ep := vc.eng.prog.ImportedPackage("errors"); ep != nil {
+				if o := ep.Pkg.Scope().Lookup("errorString"); o != nil {
+					vc.assume(Eq(r.Tag, vc.typeTag(types.NewPointer(o.Type()))), "library variable "+gl.Name()+" holds a *errors.errorString")
+				}
+			}
+		}
 		if gl, ok := x.X.(*ssa.Global); ok && vc.eng.nonNilGlobal[gl] {
 			// assigned once, in the package initialiser, with a non-nil value
 			vc.assume(Not(vc.isNil(r)), "package-level variable "+gl.Name()+" is initialised once with a non-nil value")
+			if dt := vc.eng.globalDyn[gl]; dt != nil && r.K == KIface {
+				vc.assume(Eq(r.Tag, vc.typeTag(dt)), "package-level variable "+gl.Name()+" holds a "+dt.String())
+			}
 		}
 		return r
 	case token.NOT:
@@ -1000,4 +1013,9 @@ func (f *Frame) goStmt(x *ssa.Go, o *blockOut) {
 	for _, a := range x.Call.Args {
 		f.vc.markShared(f.val(a))
 	}
+}
+
+var wellKnownErrorsNew = map[string]bool{
+	"io.EOF": true, "io.ErrUnexpectedEOF": true, "io.ErrShortWrite": true, "io.ErrShortBuffer": true,
+	"io.ErrNoProgress": true, "io.ErrClosedPipe": true, "context.Canceled": true,
 }
